@@ -147,30 +147,26 @@ fn air_queries_container_bounded() {
     assert!(out[i] == bytes[i]);
 }
 
-/// Commitments::parse with 32-byte digests: every byte is consumed or the parse fails
+/// Commitments::parse with 32-byte digests (one trace segment, zero FRI layers = 3 digests):
+/// every byte is consumed or the parse fails
+fn commitments_for<const LEN: usize, const TOTAL: usize>() -> bool {
+    type H = crypto::hashers::Blake3_256<BaseElement>;
+    let mut enc: [u8; TOTAL] = kani::any();
+    enc[0] = LEN as u8;
+    enc[1] = 0;
+    let mut rd = SliceReader::new(&enc);
+    let c = Commitments::read_from(&mut rd).unwrap();
+    assert!(!rd.has_more_bytes());
+    c.parse::<H>(1, 0).is_ok()
+}
+
 #[kani::proof]
 #[kani::unwind(40)]
 #[kani::stub(alloc::fmt::format, fmt_stub)]
 fn air_commitments_parse_bounded() {
-    type H = crypto::hashers::Blake3_256<BaseElement>;
-    let n: usize = kani::any();
-    kani::assume(n <= 100);
-    let data: [u8; 100] = kani::any();
-    let mut v: Vec<u8> = Vec::new();
-    // (shape chosen concretely below; `n` only selects it)
-    let len = if n < 50 { 96 } else { 100 };
-    v.extend_from_slice(&data[..len]);
-    let mut enc: Vec<u8> = Vec::new();
-    enc.write_u16(len as u16);
-    enc.write_bytes(&v);
-    let mut rd = SliceReader::new(&enc);
-    let c = Commitments::read_from(&mut rd).unwrap();
-    assert!(!rd.has_more_bytes());
-    // one trace segment, zero FRI layers: 3 digests = 96 bytes
-    match c.parse::<H>(1, 0) {
-        Ok((t, _c, f)) => assert!(len == 96 && t.len() == 1 && f.len() == 1),
-        Err(_) => assert!(len == 100),
-    }
+    assert!(commitments_for::<96, 98>());
+    assert!(!commitments_for::<97, 99>());
+    assert!(!commitments_for::<95, 97>());
 }
 
 #[kani::proof]
